@@ -60,6 +60,7 @@ pub trait JitterOps {
     fn set_pool(&mut self, p: u64);
     fn stir(&mut self);
     fn drain_reads(&self) -> Vec<u64>;
+    fn pool(&self) -> u64;
     fn cursor_pos(&self) -> usize;
 }
 
@@ -386,6 +387,9 @@ impl<F: Fn() -> u64 + Send + Sync + Clone + 'static> JitterOps for DJitter<F> {
     }
     fn drain_reads(&self) -> Vec<u64> {
         self.cur.drain()
+    }
+    fn pool(&self) -> u64 {
+        self.rng.verif_state().0
     }
     fn cursor_pos(&self) -> usize {
         self.cur.pos.load(Ordering::SeqCst)
